@@ -24,8 +24,9 @@ PT = 'spatialpandas/geometry/point.py'
 
 
 class PointArraySort(Sort):
-    def __init__(self, validity=True):
+    def __init__(self, validity=True, finite=True):
         self.validity = validity
+        self.finite = finite
 
     def make(self, state, name):
         a = []
@@ -38,7 +39,7 @@ class PointArraySort(Sort):
             vb = NONE
         nv = SInt(z3.Int(fresh_name(name + '_vals_len')))
         a.append(nv >= 0)
-        vals = st.new_sym_array(state, 'float', 'float64', [nv], name + '_vals', finite=True)
+        vals = st.new_sym_array(state, 'float', 'float64', [nv], name + '_vals', finite=self.finite)
         vals.base.meta['buffer'] = True
         off = SInt(z3.Int(fresh_name(name + '_offset')))
         ln = SInt(z3.Int(fresh_name(name + '_length')))
@@ -53,7 +54,7 @@ class PointArraySort(Sort):
         n_parent = rng.choice([0, 1, 2, 3, 4, 5])
         off = rng.randint(0, n_parent)
         ln = rng.randint(0, n_parent - off)
-        vals = [gen_float(rng, True) for _ in range(2 * n_parent)]
+        vals = [gen_float(rng, self.finite) for _ in range(2 * n_parent)]
         if self.validity and n_parent:
             nbytes = (n_parent + 7) // 8
             vb = {'k': 'array', 'dtype': 'uint8', 'shape': [nbytes], 'data': [rng.randint(0, 255) | (0 if rng.random() < 0.5 else 255) for _ in range(nbytes)]}
@@ -104,7 +105,7 @@ def register(reg):
     CFG = [{'validity': True}, {'validity': False}]
 
     def S(cfg):
-        return PointArraySort(bool(cfg.get('validity', True)))
+        return PointArraySort(bool(cfg.get('validity', True)), finite=bool(cfg.get('finite', True)))
 
     # ------------------------------------------------------------ isna for fixed arrays (same function, fixed rep)
     BASE = 'spatialpandas/geometry/base.py'
@@ -119,14 +120,64 @@ def register(reg):
                                         'contract proved in glue_polygon: bit offset+i of buffers()[0])'))
 
     # ------------------------------------------------------------ flat_values
+    def fv_value(c):
+        rp = rep(c.self)
+        return vals(c.self).sub(2 * rp.offset, 2 * rp.length)
+
     def fv_ens(c, r):
         rp = rep(c.self)
-        return [('length', r.n == 2 * rp.length),
-                ('cells', forall('int', lambda k: Implies(And(k >= 0, k < 2 * rp.length), r[k] == vals(c.self)[2 * rp.offset + k])))]
+        return [('is-the-window-of-the-coordinate-buffer', same_array(r, fv_value(c))),
+                ('length', r.n == 2 * rp.length),
+                ('cells', forall('int', lambda k: Implies(And(k >= 0, k < 2 * rp.length), r[k].same(vals(c.self)[2 * rp.offset + k]))))]
 
+    # (a view of the buffer; for an empty array the code returns a fresh empty array - indistinguishable)
     reg.add(Contract(FIX + '::GeometryFixedArray.flat_values', lambda cfg: [('self', S(cfg))],
-                     returns=Arr('float', finite=True), requires=lambda c: wf(c.self), ensures=fv_ens,
-                     configs=CFG, flags=('property',), props=('C16', 'C13', 'C02')))
+                     returns=fv_value, requires=lambda c: wf(c.self), ensures=fv_ens,
+                     configs=CFG + [{'validity': True, 'finite': False}], flags=('property',), props=('C16', 'C13', 'C02')))
+
+    # ------------------------------------------------------------ bounds (per-point rows), any coordinates
+    from .c13_bounds import AT, AV, MAXV, MINV, _cell
+    from pyvc.contracts import Lemma
+    from pyvc.lemmas import instance_forall
+    NANF = SFloat.const(float('nan'))
+
+    def one_cell(n):
+        x = _cell(n.A, n.T, n.lo)
+        return [('min', MINV(n.A, n.T, n.lo, n.lo + 2).same(Ite(x.is_fin(), x, SFloat.const(float('inf'))))),
+                ('max', MAXV(n.A, n.T, n.lo, n.lo + 2).same(Ite(x.is_fin(), x, SFloat.const(float('-inf')))))]
+    reg.add_lemma(Lemma('extrema_of_one_cell', [('A', AV), ('T', AT), ('lo', 'int')], ensures=one_cell, fuel=2,
+                        props=('C13',)))
+
+    def fin_or_nan(x):
+        return Ite(x.is_fin(), x, NANF)
+
+    def b_ens(c, r):
+        rp = rep(c.self)
+
+        def row(i):
+            x, y = px(c.self, i), py(c.self, i)
+            exp = [fin_or_nan(x), fin_or_nan(y), fin_or_nan(x), fin_or_nan(y)]
+            return And(*[Ite(is_null(c.self, i), r[i, j].is_nan(), r[i, j].same(exp[j])) for j in range(4)])
+        return [('shape', And(r.shape[0] == rp.length, r.shape[1] == 4)),
+                ('row-i-is-the-finite-coordinates-of-point-i', forall('int', lambda i: Implies(And(i >= 0, i < rp.length), row(i))))]
+
+    def b_hints(c, r):
+        v = vals(c.self)
+        rp = rep(c.self)
+        from .c13_bounds import total_bounds_spec
+
+        def spec_row(i):
+            exp = total_bounds_spec(v, 2 * (rp.offset + i), 2 * (rp.offset + i) + 2)
+            return And(*[Ite(is_null(c.self, i), r[i, j].is_nan(), r[i, j].same(exp[j])) for j in range(4)])
+        return [('rows-are-the-kernel-rows-of-present-points', forall('int', lambda i: Implies(And(i >= 0, i < rp.length), spec_row(i)))),
+                ('one-cell', instance_forall(reg, 'extrema_of_one_cell', 'int', lambda k: dict(A=v.A, T=v.T, lo=k),
+                                             patterns=lambda k: [MINV(v.A, v.T, k, k + 2).val]))]
+
+    BCFG = [{'validity': True, 'finite': False}, {'validity': False, 'finite': False}]
+    reg.add(Contract(FIX + '::GeometryFixedArray.bounds', lambda cfg: [('self', S(cfg))], returns=Arr('float', ndim=2, cols=4),
+                     requires=lambda c: wf(c.self), ensures=b_ens, post_hints=b_hints, configs=BCFG,
+                     post_using={'row-i-is-the-finite-coordinates-of-point-i': ['hint:rows-are', 'lemma:one-cell', 'req:']},
+                     flags=('property',), props=('C13', 'C17', 'C16'), fuel=1))
 
     # ------------------------------------------------------------ x / y
     def xy_contract(name, get):
